@@ -38,6 +38,7 @@ func checkC17(c *Ctx) {
 	runLockPairing(c, l, "LOCK-pairing", scope, lockHandoffs)
 	checkReferenceRootOlder(c)
 	checkFailedCommitDiscards(c)
+	checkFailedWriteKeepsRoot(c)
 	var lossy []string
 	for fn, why := range ea.lossy {
 		lossy = append(lossy, l.fname(fn)+": "+why)
@@ -209,4 +210,43 @@ func checkFailedCommitDiscards(c *Ctx) {
 	}
 	c.decide(R, "nodeDB.Commit failure edge discards the batch", l.ipos(at), found && ok, "the batch is closed / replaced before the error is returned",
 		"nodeDB.Commit returns the write error with the failed commit's operations still queued: the next successful commit applies them, also after Rollback() discarded the working state they belonged to")
+}
+
+// checkFailedWriteKeepsRoot (C17, C01): a write-API call that fails (its
+// descent could not read a node) leaves the working tree as it was.  The
+// recursive insert / remove return (nil, …, err) on failure; the working root
+// may therefore be replaced by their result only on the nil-error edge.
+func checkFailedWriteKeepsRoot(c *Ctx) {
+	l := c.L
+	const R = "DOM-failed-write-keeps-root"
+	c.rule(R, "the working root is replaced by the result of a fallible descent only after its error was found nil", 2)
+	fRoot := l.Field("", "ImmutableTree", "root")
+	if fRoot == nil {
+		c.anchorMissing(R, "ImmutableTree.root")
+		return
+	}
+	n := 0
+	for _, name := range []string{"*MutableTree.set", "*MutableTree.Remove"} {
+		fn := l.Func("", name)
+		if fn == nil {
+			c.anchorMissing(R, name)
+			continue
+		}
+		for _, st := range storesToField(fn, fRoot) {
+			e, ok := stripTrivial(st.Val).(*ssa.Extract)
+			if !ok {
+				continue
+			}
+			call, ok := e.Tuple.(*ssa.Call)
+			if !ok || errResultIndex(call.Call.Signature()) < 0 {
+				continue
+			}
+			n++
+			c.decide(R, l.fname(fn)+" installs the result of "+l.calleeName(call), l.ipos(st), okEdgeDominates(call, st), "only on the nil-error edge",
+				"the working root is overwritten with the result of "+l.calleeName(call)+" before its error is examined: when the descent fails on a storage read that result is nil, the call reports the error but the working tree is now empty — later reads answer `absent` and the next commit saves an empty tree")
+		}
+	}
+	if n < 2 {
+		c.anchorMissing(R, "fewer than 2 root replacements from fallible descents (set, Remove)")
+	}
 }
